@@ -73,7 +73,7 @@ def one_batch(ctx, graphs, tag):
 
 
 def run(ctx):
-    n = 150 if ctx.tier == "quick" else 2500
+    n = 450 if ctx.tier == "quick" else 6000
     done = 0
     while done < n and ctx.time_left() > 15:
         batch = gen_valid_graphs(ctx, min(150, n - done), max_demes=6)
